@@ -8,13 +8,16 @@ d = tempfile.mkdtemp(prefix='vw-p-'); os.rmdir(d)
 subprocess.check_call(['git', '-C', '/repo', 'worktree', 'add', '--detach', d, 'HEAD'], stdout=subprocess.DEVNULL, stderr=subprocess.DEVNULL)
 try:
     p = os.path.join(d, path)
-    s = open(p).read()
+    s = open(p, newline='').read()
+    crlf = '\r\n' in s
     for old, new in pairs:
+        if crlf:
+            old = old.replace('\r\n', '\n').replace('\n', '\r\n'); new = new.replace('\r\n', '\n').replace('\n', '\r\n')
         assert s.count(old) == 1, (old, s.count(old))
         s = s.replace(old, new)
-    open(p, 'w').write(s)
-    diff = subprocess.check_output(['git', '-C', d, 'diff'], text=True)
-    open(os.path.join(V, 'selftest_patches', name + '.diff'), 'w').write(diff)
+    open(p, 'w', newline='').write(s)
+    diff = subprocess.check_output(['git', '-C', d, 'diff'])
+    open(os.path.join(V, 'selftest_patches', name + '.diff'), 'wb').write(diff)
 finally:
     subprocess.call(['git', '-C', '/repo', 'worktree', 'remove', '--force', d], stdout=subprocess.DEVNULL, stderr=subprocess.DEVNULL)
     shutil.rmtree(d, ignore_errors=True)
